@@ -202,6 +202,10 @@ func genCase(r *gen.Rand, wr *gen.Writer) (cfgIn, []op, string) {
 			tok = gen.Pick(r, seen)
 		case 2:
 			tok = cls[r.Intn(ncl)].ck
+		case 3:
+			if r.Chance(1, 2) {
+				tok = mangle(r, o.ck) // cookie and presented value differ slightly
+			}
 		}
 		place := c.ext
 		if r.Chance(1, 12) {
